@@ -12,6 +12,8 @@
 //!   leak   <idx> <hex>          Message::decode(Bytes) (zero-copy path), then the result (value or error) and the
 //!                               input are dropped:  ok|err LIVE <live heap bytes after - before> REFS <0|1>
 //!                               REFS 1 = a second handle to the input Bytes is not unique after the result was dropped
+//!                               ... HELD <live heap blocks while the result is held, above the level before the decode>
+//!                               HREFS <0|1> (1 = the result references the input buffer)
 //!   info   <idx>                NAME <proto name> SIZE <size_of>
 //!   count                       N <number of message types>
 //!
@@ -37,6 +39,7 @@ use pilota::prost::Message;
 pub struct Counting;
 static LIVE: AtomicUsize = AtomicUsize::new(0);
 static PEAK: AtomicUsize = AtomicUsize::new(0);
+static BLOCKS: AtomicUsize = AtomicUsize::new(0);
 unsafe impl std::alloc::GlobalAlloc for Counting {
     unsafe fn alloc(&self, l: std::alloc::Layout) -> *mut u8 {
         // a request above 4 GiB would be satisfied lazily by the OS and go unnoticed: refuse it
@@ -46,6 +49,7 @@ unsafe impl std::alloc::GlobalAlloc for Counting {
         }
         let p = std::alloc::System.alloc(l);
         if !p.is_null() {
+            BLOCKS.fetch_add(1, Relaxed);
             let live = LIVE.fetch_add(l.size(), Relaxed) + l.size();
             PEAK.fetch_max(live, Relaxed);
         }
@@ -53,6 +57,7 @@ unsafe impl std::alloc::GlobalAlloc for Counting {
     }
     unsafe fn dealloc(&self, p: *mut u8, l: std::alloc::Layout) {
         LIVE.fetch_sub(l.size(), Relaxed);
+        BLOCKS.fetch_sub(1, Relaxed);
         std::alloc::System.dealloc(p, l)
     }
     unsafe fn realloc(&self, p: *mut u8, l: std::alloc::Layout, new_size: usize) -> *mut u8 {
@@ -182,18 +187,23 @@ fn render_ok<T: Message + Debug>(m: &T, pk: &Peak, quiet: bool) -> String {
 }
 
 /// one measurement: live heap bytes before the input exists vs after result and input are gone
-fn leak_once<T: Message + Default>(data: &[u8]) -> (&'static str, i64, u8) {
+fn leak_once<T: Message + Default>(data: &[u8]) -> (&'static str, i64, u8, i64, u8) {
     let before = LIVE.load(Relaxed) as i64;
     let input = Bytes::copy_from_slice(data);
     let keep = input.clone();
+    // the input (its buffer and, once cloned, its shared header) is in place: blocks from here on belong to the decode
+    let blocks_before = BLOCKS.load(Relaxed) as i64;
     let r = T::decode(input);
     let st = if r.is_ok() { "ok" } else { "err" };
+    // while the result is held: what it owns (for an Err: the DecodeError)
+    let held = BLOCKS.load(Relaxed) as i64 - blocks_before;
+    let hrefs = if data.is_empty() || keep.is_unique() { 0 } else { 1 };
     drop(r);
     // (an empty Bytes is a static: there is no buffer anyone could hold on to)
     let refs = if data.is_empty() || keep.is_unique() { 0 } else { 1 };
     drop(keep);
     let after = LIVE.load(Relaxed) as i64;
-    (st, after - before, refs)
+    (st, after - before, refs, held, hrefs)
 }
 
 fn run_op<T: Message + Default + Debug>(op: &Op) -> String {
@@ -203,8 +213,8 @@ fn run_op<T: Message + Default + Debug>(op: &Op) -> String {
             // the first decode of a type may initialise process-wide state (hasher seeds, thread locals):
             // a leak repeats, so the second measurement is the one reported
             let _ = leak_once::<T>(data);
-            let (st, live, refs) = leak_once::<T>(data);
-            format!("{} LIVE {} REFS {}", st, live, refs)
+            let (st, live, refs, held, hrefs) = leak_once::<T>(data);
+            format!("{} LIVE {} REFS {} HELD {} HREFS {}", st, live, refs, held, hrefs)
         }
         Op::Dec { data, quiet } => {
             let input = Bytes::from(data.clone());
